@@ -39,6 +39,85 @@ def run(repo, chk):
     r2(repo, chk)
     r3(repo, chk)
     r4(repo, chk)
+    r5(repo, chk)
+
+
+def _branch_assigns(fn: Fn, test_text: str):
+    """{True: {local: value text}, False: {...}} for the if/else whose test is `test_text`"""
+    for st in fn.stmts(lambda s: isinstance(s, ast.If)):
+        if norm(st.test) == test_text and st.orelse:
+            out = {}
+            for pol, body in ((True, st.body), (False, st.orelse)):
+                d = {}
+                for b in body:
+                    if isinstance(b, ast.Assign) and len(b.targets) == 1 and isinstance(b.targets[0], ast.Name):
+                        d[b.targets[0].id] = norm(b.value)
+                out[pol] = d
+            return st, out
+    return None, None
+
+
+def r5(repo, chk):
+    """R5: every limit the sender obeys comes from the peer's parameter for that class of stream"""
+    chk.rule("R5", "initial limits: a locally opened stream starts with the peer's initial_max_stream_data_uni / _bidi_remote, a peer-opened bidirectional stream with initial_max_stream_data_bidi_local (a peer-opened unidirectional stream cannot be written); the same mapping when streams are unblocked; the remote limits are stored from the peer's transport parameters of the same name; each MAX_* handler stores the raised value; a stream blocked by the stream-count limit is queued for release")
+    want = {
+        "_get_or_create_stream_for_send": ("stream_is_unidirectional(stream_id)", {True: {"max_stream_data_remote": "self._remote_max_stream_data_uni", "max_streams": "self._remote_max_streams_uni", "streams_blocked": "self._streams_blocked_uni"}, False: {"max_stream_data_remote": "self._remote_max_stream_data_bidi_remote", "max_streams": "self._remote_max_streams_bidi", "streams_blocked": "self._streams_blocked_bidi"}}),
+        "_unblock_streams": ("is_unidirectional", {True: {"max_stream_data_remote": "self._remote_max_stream_data_uni", "max_streams": "self._remote_max_streams_uni", "streams_blocked": "self._streams_blocked_uni"}, False: {"max_stream_data_remote": "self._remote_max_stream_data_bidi_remote", "max_streams": "self._remote_max_streams_bidi", "streams_blocked": "self._streams_blocked_bidi"}}),
+        "_get_or_create_stream": ("stream_is_unidirectional(stream_id)", {True: {"max_stream_data_remote": "0"}, False: {"max_stream_data_remote": "self._remote_max_stream_data_bidi_local"}}),
+    }
+    for fname, (test, table) in want.items():
+        fn = Fn(repo, CONN + fname)
+        st, got = _branch_assigns(fn, test)
+        if st is None:
+            raise AnalysisError(f"{fname}: the if/else on `{test}` that selects the limits was not found")
+        for pol in (True, False):
+            for local, src in table[pol].items():
+                chk.ob("R5", f"{fname}: `{local}` for a {'unidirectional' if pol else 'bidirectional'} stream is {src}", got[pol].get(local) == src, f"assigned {got[pol].get(local)}: the limit of another stream class (or of the local side) would be obeyed instead of the peer's", fn.loc(st))
+        # the selected locals are what the stream is built / tested / released with, and nothing reassigns them
+        for local in table[True]:
+            n = len(fn.assigns(chain=local))
+            chk.ob("R5", f"{fname}: `{local}` is assigned only by the class selection", n == 2, f"{n} assignments", fn.loc(st))
+        if fname != "_unblock_streams":
+            ctor = [c for c in fn.calls(name="QuicStream")]
+            ok = len(ctor) == 1 and norm(get_kw(ctor[0], "max_stream_data_remote", 99)) == "max_stream_data_remote"
+            chk.ob("R5", f"{fname}: QuicStream(max_stream_data_remote=max_stream_data_remote)", ok, "the stream is not created with the selected limit", fn.loc(fn.node))
+    # QuicStream stores the keyword into the field get_frame's caller reads
+    qs = Fn(repo, "quic.stream:QuicStream.__init__")
+    ok = any(norm(v) == "max_stream_data_remote" for st, t, v in qs.assigns(chain="self.max_stream_data_remote"))
+    chk.ob("R5", "QuicStream.__init__ stores max_stream_data_remote", ok, "", qs.loc(qs.node))
+    # transport parameters -> remote limit fields of the same name
+    tp = Fn(repo, CONN + "_parse_transport_parameters")
+    ok = False
+    names = []
+    for st in tp.stmts(lambda s: isinstance(s, ast.For)):
+        if isinstance(st.iter, (ast.List, ast.Tuple)) and all(isinstance(e, ast.Constant) for e in st.iter.elts):
+            body = " ; ".join(norm(b) for b in st.body)
+            v = st.target.id if isinstance(st.target, ast.Name) else "?"
+            if f"getattr(quic_transport_parameters, 'initial_' + {v})" in body and f"setattr(self, '_remote_' + {v}, value)" in body:
+                names = [e.value for e in st.iter.elts]
+                guards_ok = all(norm(b.test) == "value is not None" for b in st.body if isinstance(b, ast.If))
+                ok = guards_ok
+    chk.ob("R5", "_parse_transport_parameters copies initial_<x> to _remote_<x> under the same name x", ok, "the remote limit fields are no longer filled from the peer's parameter of the same name", tp.loc(tp.node))
+    need = {"max_data", "max_stream_data_bidi_local", "max_stream_data_bidi_remote", "max_stream_data_uni", "max_streams_bidi", "max_streams_uni"}
+    chk.ob("R5", "all six flow-control / stream-count parameters are copied", set(names) == need, f"copied: {sorted(names)}", tp.loc(tp.node))
+    # each MAX_* handler stores the value it pulled (non-vacuity of the `only raises` rule R2)
+    for hname, field in (("_handle_max_data_frame", "self._remote_max_data"), ("_handle_max_stream_data_frame", "stream.max_stream_data_remote"), ("_handle_max_streams_bidi_frame", "self._remote_max_streams_bidi"), ("_handle_max_streams_uni_frame", "self._remote_max_streams_uni")):
+        h = Fn(repo, CONN + hname)
+        ws = h.assigns(chain=field)
+        ok = len(ws) == 1 and isinstance(ws[0][2], ast.Name) and "buf.pull_uint_var()" in h.expand(ws[0][2], 2)
+        chk.ob("R5", f"{hname} stores the pulled value into {field}", ok, "the raised limit is dropped: data blocked by the limit is never sent", h.loc(h.node))
+    hs = Fn(repo, CONN + "_handle_max_stream_data_frame")
+    ok = any(norm(v).startswith("self._get_or_create_stream(") and "stream_id" in norm(v) for st, t, v in hs.assigns(chain="stream"))
+    chk.ob("R5", "_handle_max_stream_data_frame updates the stream named by the frame", ok, "", hs.loc(hs.node))
+    # blocked streams are queued where _unblock_streams looks for them
+    g = Fn(repo, CONN + "_get_or_create_stream_for_send")
+    sets = [st for st, t, v in g.assigns(chain="stream.is_blocked") if isinstance(v, ast.Constant) and v.value is True]
+    ok = False
+    if len(sets) == 1:
+        blk = getattr(sets[0], "_parent", None)
+        sib = [norm(x) for x in getattr(blk, "body", [])]
+        ok = "streams_blocked.append(stream)" in sib and "self._streams_blocked_pending = True" in sib
+    chk.ob("R5", "_get_or_create_stream_for_send queues a blocked stream on the list _unblock_streams drains and announces STREAMS_BLOCKED", ok, "a blocked stream that is not queued stays blocked after MAX_STREAMS", g.loc(g.node))
 
 
 def r1(repo, chk):
